@@ -38,7 +38,10 @@ def cells(tier, seed):
     for mk in ("measure", "pdf"):
         for R in Rs:
             for reg in REGIMES:
-                out.append({"mk": mk, "R": R, "regime": reg, "reps": reps, "group": [mk, R],
+                # the tail regime spans 4.5 .. 9 sigma: several draws so that every decade of the
+                # truncated mass (1e-6 .. 1e-19) is visited
+                out.append({"mk": mk, "R": R, "regime": reg,
+                            "reps": reps * (3 if reg == "far-tail" else 1), "group": [mk, R, reg],
                             "cost": 1.0})
     return out
 
@@ -84,7 +87,7 @@ def limits(rng, reg, mu, sd):
         hi = mu + rng.uniform(-2.0, 2.0, R) * sd
     elif reg == "far-tail":
         s = rng.choice([-1.0, 1.0], R)
-        inner = mu + s * rng.uniform(6.0, 9.0, R) * sd
+        inner = mu + s * rng.uniform(4.5, 9.0, R) * sd
         outer = inner + s * rng.uniform(0.5, 3.0, R) * sd
         lo, hi = np.minimum(inner, outer), np.maximum(inner, outer)
         one = rng.integers(0, 2, R).astype(bool)
